@@ -30,7 +30,7 @@ def print_stmts(stmts, indent=0, ind='    '):
                 out.append(f'{p}{"if" if i == 0 else "elif"} {cond}:')
                 out += print_stmts(body, indent + 1, ind)
             if s[2] is not None:
-                out.append(f'{p}else:')
+                out.append(f'{p}else:' if indent % 2 == 0 else f'{p}else :')       # (white space before the colon is allowed)
                 out += print_stmts(s[2], indent + 1, ind)
             out.append(f'{p}endif')
         elif k == 'while':
